@@ -13,6 +13,20 @@ def cacheOK (c : CacheSite) : Bool :=
   (if c.decorator == k! "cached_property" then (reviewedCachedProperties.lookup (c.file, c.func)).isSome
    else c.selfAttrs.isEmpty)
 
+def returnOK (c : CacheSite) : Bool :=
+  c.decorator == k! "cached_property" || immutableReturns.contains c.returns ||
+  match reviewedCacheReturns.lookup (c.file, c.func) with
+  | some .noCaller => c.callers == 0
+  | some _ => true
+  | none => false
+
+def listingOK (s : ListingSite) : Bool :=
+  (s.isSorted && s.key == k! "") ||
+  match reviewedListingSites.lookup (s.file, s.func, s.call) with
+  | some .sortedByBasename => s.isSorted && s.key == k! "lambda p: p.name"
+  | some .firstFileDecidesInputType => true
+  | none => false
+
 def handlers : List (String × Handler) := [
   /- det.refute sites|cache|state → none | ok <keys…> : every entry of the generated table that is not justified -/
   ("det.refute", fun
@@ -28,6 +42,14 @@ def handlers : List (String × Handler) := [
       match classMutables.filter (fun m => (reviewedClassMutables.lookup (m.1, m.2.1, m.2.2.1)).isNone) with
       | [] => "none"
       | bad => "ok " ++ " ".intercalate (bad.map (fun m => s!"({m.1} {m.2.1} {m.2.2.1})"))
+    | [.atom "returns"] =>
+      match cacheSites.filter (fun c => !returnOK c) with
+      | [] => "none"
+      | bad => "ok " ++ " ".intercalate (bad.map (fun c => s!"({c.file} {c.func} {c.returns})"))
+    | [.atom "listing"] =>
+      match listingSites.filter (fun s => !listingOK s) with
+      | [] => "none"
+      | bad => "ok " ++ " ".intercalate (bad.map (fun s => s!"({s.file} {s.func} {s.call})"))
     | [.atom "writes"] =>
       match memoValueWrites.filter (fun w => (reviewedMemoWrites.lookup (w.1, w.2.1, w.2.2.1)).isNone) with
       | [] => "none"
